@@ -10,6 +10,7 @@ import (
 	"io"
 	"runtime"
 	"strconv"
+	"strings"
 	"sync"
 	"time"
 
@@ -162,6 +163,11 @@ func (m *Manager) CreateTable(name string) (Table, error) {
 }
 
 func (m *Manager) createTable(name string) (Table, error) {
+	// Catalogue records are listed by a single-level pattern and share their prefix
+	// with the lease records and the ID sequence, a nested name would collide with those.
+	if strings.Contains(name, "/") {
+		return Table{}, serrors.ErrInvalidTableName
+	}
 	storeName := storedTableName(name)
 	exists, err := m.store.Exists(storeName)
 	if err != nil {
@@ -518,6 +524,9 @@ func (m *Manager) stopTable(clusterID uint64) error {
 }
 
 func (m *Manager) Restore(name string, reader io.Reader) error {
+	if strings.Contains(name, "/") {
+		return serrors.ErrInvalidTableName
+	}
 	tbl, version, err := m.getTableVersion(name)
 	if err != nil && !errors.Is(err, serrors.ErrTableNotFound) {
 		return err
